@@ -322,7 +322,10 @@ func runGateSeqOps(rc *RunCtx, prop string, fixed []gateOp, fixedBroker bool) {
 			if !probe && fixed == nil && tp.Choose(10, "set-expiration") == 0 {
 				// the exported Expiration is changed on the live filter: groups opened
 				// from now on expire earlier / later than the ones already open
-				op = gateOp{Kind: "set-expiration", D: []int64{int64(E) / 10, int64(E) * 10, int64(E) / 3, -int64(time.Second)}[tp.Choose(4, "newexp")]}
+				op = gateOp{Kind: "set-expiration", D: []int64{int64(E) / 10, int64(E) * 10, int64(E) / 3, -int64(time.Second), 0}[tp.Choose(5, "newexp")]}
+				if len(groups) == 0 && seq > 0 && tp.Choose(2, "back-to-default-while-empty") == 0 {
+					op.D = 0 // "use the default" again, set while nothing is gated on a filter that has been in use
+				}
 			}
 			if !probe && fixed == nil && tp.Choose(14, "replace-clock") == 0 {
 				op = gateOp{Kind: "replace-clock"}
@@ -433,11 +436,11 @@ func runGateSeqOps(rc *RunCtx, prop string, fixed []gateOp, fixedBroker bool) {
 				simrt.Probe("gate.broker-field-changed")
 				histStr = append(histStr, fmt.Sprintf("set-broker(#%d)", curTag))
 			case "set-expiration":
-				if op.D < 1 {
-					op.D = 1
-				}
-				curE = time.Duration(op.D)
+				curE = time.Duration(op.D) // (zero: the default again; negative: expired when opened)
 				gf.Expiration = curE
+				if op.D == 0 {
+					curE = gated.DefaultEventTimeout // 0 means "use the default", whenever it is set
+				}
 				histStr = append(histStr, fmt.Sprintf("set-expiration(%v)", curE))
 			case "advance":
 				h.now = h.now.Add(time.Duration(op.D))
